@@ -16,6 +16,9 @@ import (
 func init() { checks["C02"] = checkC02 }
 
 func matchAny(got float64, want []float64, tol float64) (bool, float64) {
+	if isAmbiguous(want) {
+		return true, 0 // reference not tracked at this point (see ambiguousSet)
+	}
 	best := math.Inf(1)
 	for _, w := range want {
 		if d := math.Abs(got - w); d < best {
@@ -327,6 +330,9 @@ func c02Blends(c *Ctx) {
 		filleted := false
 		for q := 0; q < 300; q++ {
 			got, as, bs, p := eval(q)
+			if isAmbiguous(as) || isAmbiguous(bs) {
+				continue
+			}
 			// operands may have two acceptable values on a fold boundary: the law must hold for one combination
 			var bad string
 			var a, b float64
